@@ -144,6 +144,14 @@ func (g *Gen) oddSpellings(p *prng, name, base string) []string {
 			out = append(out, head+replaceNth(digitRun, suf, i, "20240101000000000001"))
 			out = append(out, head+replaceNth(digitRun, suf, i, "-7"))
 			out = append(out, head+replaceNth(digitRun, suf, i, "007"))
+			// neighbours of the number: n+1, and the digit strings n1, n2, 1n
+			d := digitRun.FindAllString(suf, -1)[i]
+			if len(d) <= 6 {
+				if n, err := strconv.Atoi(d); err == nil {
+					out = append(out, head+replaceNth(digitRun, suf, i, strconv.Itoa(n+1)))
+				}
+				out = append(out, head+replaceNth(digitRun, suf, i, d+"1"), head+replaceNth(digitRun, suf, i, d+"2"), head+replaceNth(digitRun, suf, i, "1"+d))
+			}
 		} else {
 			out = append(out, head+suf+".-7", head+suf+".20240101000000000001", head+suf+"7")
 		}
@@ -238,8 +246,8 @@ func (g *Gen) familyOf(p *prng, name, base string) family {
 		j := p.n(i + 1)
 		rest[i], rest[j] = rest[j], rest[i]
 	}
-	if len(f.cands) > 24 {
-		f.cands = f.cands[:24]
+	if len(f.cands) > 28 {
+		f.cands = f.cands[:28]
 	}
 	for _, c := range f.cands {
 		if len(f.vs) < 12 && tryV(e, c) {
@@ -248,7 +256,7 @@ func (g *Gen) familyOf(p *prng, name, base string) family {
 	}
 	tm := g.templates[name]
 	addR := func(r string) {
-		if len(r) > 120 || len(f.rs) >= 10 || !tryR(e, r) {
+		if len(r) > 120 || len(f.rs) >= 14 || !tryR(e, r) {
 			return
 		}
 		for _, x := range f.rs {
@@ -259,8 +267,8 @@ func (g *Gen) familyOf(p *prng, name, base string) family {
 		f.rs = append(f.rs, r)
 	}
 	// sibling ranges: the same template over several related spellings
-	for t := p.rng(1, 3); t > 0 && len(tm) > 0; t-- {
-		tmpl := pickS(p, tm)
+	for t := p.rng(1, 4); t > 0 && len(tm) > 0; t-- {
+		tmpl := g.pickTemplate(p, name)
 		for k := p.rng(2, 5); k > 0; k-- {
 			addR(fill(p, tmpl, f.cands))
 		}
@@ -521,4 +529,85 @@ func (g *Gen) colliders(p *prng, name string, ranges bool, n int) []string {
 		}
 	}
 	return nil
+}
+
+// templateSig is what is left of a template when the version slots and blanks
+// are removed: its operator shape.
+func templateSig(t string) string {
+	return strings.Join(strings.Fields(strings.ReplaceAll(t, "%s", "")), "")
+}
+
+// pickTemplate samples uniformly over operator shapes first, then over the
+// templates of that shape, so that a rarely used operator gets the same share
+// as a common one.
+func (g *Gen) pickTemplate(p *prng, name string) string {
+	sigs := g.sigs[name]
+	if len(sigs) == 0 {
+		return pickS(p, g.templates[name])
+	}
+	return pickS(p, g.bySig[name][pickS(p, sigs)])
+}
+
+// liveTemplates keeps the templates that, filled with a valid version, give a
+// range that contains at least one of a few probe versions. Ecosystems that
+// accept any text as a range would otherwise drown their real operators in
+// templates that can never match anything.
+func liveTemplates(e Eco, tm []string, versions []string) []string {
+	if len(versions) == 0 {
+		return tm
+	}
+	probes := versions
+	if len(probes) > 12 {
+		probes = probes[:12]
+	}
+	var live []string
+	for _, t := range tm {
+		ok := false
+		for k := 0; k < 3 && k < len(probes) && !ok; k++ {
+			r, err := guardRange(e, strings.ReplaceAll(t, "%s", strings.TrimSpace(probes[k])))
+			if err != nil || r == nil {
+				continue
+			}
+			for _, pv := range probes {
+				if v, err := guardVersion(e, pv); err == nil && v != nil && guardContains(e, r, v) {
+					ok = true
+					break
+				}
+			}
+		}
+		if ok {
+			live = append(live, t)
+		}
+	}
+	if len(live) < 4 {
+		return tm
+	}
+	return live
+}
+
+func guardRange(e Eco, s string) (r any, err error) {
+	defer func() {
+		if recover() != nil {
+			r, err = nil, errPanic
+		}
+	}()
+	return e.NewRange(s)
+}
+
+func guardVersion(e Eco, s string) (v any, err error) {
+	defer func() {
+		if recover() != nil {
+			v, err = nil, errPanic
+		}
+	}()
+	return e.NewVersion(s)
+}
+
+func guardContains(e Eco, r, v any) (ok bool) {
+	defer func() {
+		if recover() != nil {
+			ok = false
+		}
+	}()
+	return e.Contains(r, v)
 }
